@@ -27,3 +27,12 @@ VARIANTS += [
          [(WK8, "        if loop.iterations <= 0:\n", "        if False:\n")],
          ("*", "TraceVisitor.visit_LoopStatement"), ("C08",)),
 ]
+VARIANTS += [
+    # reverting fix 9160fd4
+    fire("c08-discover-guard-repeats-only",
+         [(WK8, "        if had_started and (reps != 1) and (len(self.subcircuits) != count):", "        if had_started and (reps > 1) and (len(self.subcircuits) != count):")],
+         ("C08.6", "DiscoverSubcircuits.visit_BlockStatement:repetition-test"), ("C08",)),
+    fire("c08-discover-open-trace-accepted",
+         [(WK8, "            and (self.current is not open_at_entry)\n", "            and False\n")],
+         ("C08.6", "open-trace-left-by-loop"), ("C08",)),
+]
